@@ -48,7 +48,7 @@
      (state-free) specification of which variable an occurrence of <T> denotes (walk_doc shares the listener state). *)
 From Coq Require Import List NArith Bool.
 Import ListNotations.
-From ISLA Require Import Str Outcome Tree Grammar Formula Sugar SugarFacts SugarMore SugarXPath SugarTotal SugarClose SugarUniq SugarWalk SugarCompose SugarGhost SugarAddm SugarComposeX.
+From ISLA Require Import Str Outcome Tree Grammar Formula Sugar SugarFacts SugarMore SugarXPath SugarTotal SugarClose SugarUniq SugarWalk SugarCompose SugarGhost SugarAddm SugarComposeX SugarFresh SugarAlpha SugarAlpha2 SugarAlpha3 SugarCompose2 SugarComposeX2.
 
 (* implies / iff / xor, as built by the parser from the smart constructors, have their truth-table meaning *)
 Theorem C08_derived_connectives :
@@ -452,3 +452,143 @@ Theorem C08_sugar_core_xpath1_nonvacuous :
      K_pushin_empty str (dom_k (fun _ => [121]%N)) (fun _ => []) rho0 v (InVar start_c) None = false).
 Proof. exact sugar_core_xpath1_nonvacuous. Qed.
 Print Assumptions C08_sugar_core_xpath1_nonvacuous.
+
+(* ================= wave 4: alpha-renaming (Logic/SugarFresh.v, SugarAlpha.v, SugarAlpha2.v, SugarAlpha3.v) ================= *)
+
+(* SUBSTITUTION LEMMA for the blind renaming `sub` (substitute_variables): a renaming that leaves the binders of f (and
+   every non-BoundVariable) alone and maps no other variable onto a bound variable of f acts on the meaning as
+   composition of the environment.  FULL for well-scoped f (inq_ok). *)
+Theorem C08_sub_capture_free :
+  forall (D : Type) aev pev (dom : D -> var -> option mexpr -> list (list (var * D))) idom tval,
+  (forall d v m asg, In asg (dom d v m) -> forall x, existsb (fun p => var_eqb (fst p) x) asg = vmem x (qbound v m)) ->
+  forall s f,
+    (forall w, In w (binders f) -> rlook s w = w) /\ (forall z, vk z <> VBound -> rlook s z = z) ->
+    (forall z, In (rlook s z) (bvars f) -> rlook s z = z) ->
+    inq_ok f = true ->
+    forall e e', (forall x, In x (fv f) -> e' x = e (rlook s x)) ->
+      ev D aev pev dom idom tval e (sub s f) = ev D aev pev dom idom tval e' f.
+Proof. exact sub_ev. Qed.
+Print Assumptions C08_sub_capture_free.
+
+(* fresh_vars (threaded used-name set): the chosen names are pairwise different and not in the used set; a variable is
+   either kept or becomes a BoundVariable of the same type named stem_j.  Bound 10^20 = the model's digit fuel of `dec`. *)
+Theorem C08_fresh_vars_fresh : forall own U s U2, fresh_vars own U = (s, U2) ->
+  (N.of_nat (length U + length own) < BIG)%N ->
+  map fst s = own /\ U2 = U ++ names (map snd s) /\ Forall pair_ok s /\
+  NoDup (names (map snd s)) /\ (forall x, In x (names (map snd s)) -> ~ In x U).
+Proof. exact fresh_vars_spec. Qed.
+Print Assumptions C08_fresh_vars_fresh.
+
+(* FULL STATEMENT (false, see C08_uniq_capture_refuted):
+     uniq n U f = Ok (f', U') -> forall rho, ev rho f' = ev rho f.
+   ALPHA-RENAMING THEOREM, PARTIAL with the boolean guard uniq_ok U f:
+     - no quantifier of f re-binds a variable bound by an enclosing quantifier (nosh: "without shadowing"), quantifiers
+       bind BoundVariables, no quantifier ranges over its own variable (inq_ok), and/or have >= 2 operands;
+     - every free BoundVariable x of f is protected from the invented names: its name is in the used set U, or no binder
+       of f has the same stem (strip_idx; invented names are stem_0, stem_1, ...)   [excludes exactly the capture];
+     - |U| + number of binders < 10^20 (digit fuel of the model's `dec`).
+   Then the pass - which now really RENAMES (blind substitution into the body, fresh names from the threaded used-name
+   set, recursion into the renamed body, and/or rebuilt by reduce(&,|)) - preserves the meaning in every environment.
+   New premise about the abstract domains (third one): they do not depend on the names of the bound variables
+   (satisfied by the tree domains: C08_dom_ren_witnesses). *)
+Theorem C08_uniq_sound_partial :
+  forall (D : Type) aev pev (dom : D -> var -> option mexpr -> list (list (var * D))) idom tval,
+  (forall d v m k, mexpr_eqb m k = true -> dom d v m = dom d v k) ->
+  (forall d v m asg, In asg (dom d v m) -> forall x, existsb (fun p => var_eqb (fst p) x) asg = vmem x (qbound v m)) ->
+  (forall s d v m, kt_pres (rlook s) -> dom d (rlook s v) (sub_me s m) = map (ren_asg (rlook s)) (dom d v m)) ->
+  forall n U f f' U', uniq n U f = Ok (f', U') -> uniq_ok U f = true ->
+    (forall rho, ev D aev pev dom idom tval rho f' = ev D aev pev dom idom tval rho f) /\ incl U U'.
+Proof. exact uniq_sound_guard. Qed.
+Print Assumptions C08_uniq_sound_partial.
+
+(* the pass is TOTAL with the model's fuel (no side condition) *)
+Theorem C08_uniq_total : forall n U f, fsize f < n -> exists f' U', uniq n U f = Ok (f', U').
+Proof. exact uniq_total. Qed.
+Print Assumptions C08_uniq_total.
+
+(* non-vacuity: two sibling quantifiers over the same variable a; the guard holds and the second one is renamed to a_0 *)
+Theorem C08_uniq_sound_nonvacuous :
+  uniq_ok [] f_dup = true /\
+  uniq 4 [] f_dup = Ok (FAnd [FForall va (InVar start_c) None (FSmt (MkAtom false 1 [va]));
+                               FForall va0 (InVar start_c) None (FSmt (MkAtom false 2 [va0]))], [[97]; [97; 95; 48]]%N).
+Proof. exact uniq_sound_nonvacuous. Qed.
+Print Assumptions C08_uniq_sound_nonvacuous.
+
+(* the premise dom_ren holds for the tree semantics dom_t of match expressions (any candidate function) and for dom_k *)
+Theorem C08_dom_ren_witnesses :
+  (forall cands s d v m, kt_pres (rlook s) ->
+     dom_t cands d (rlook s v) (sub_me s m) = map (ren_asg (rlook s)) (dom_t cands d v m)) /\
+  (forall (c : str) s d v m, kt_pres (rlook s) ->
+     dom_k (fun _ => c) d (rlook s v) (sub_me s m) = map (ren_asg (rlook s)) (dom_k (fun _ => c) d v m)).
+Proof. exact (conj dom_t_ren dom_k_ren). Qed.
+Print Assumptions C08_dom_ren_witnesses.
+
+(* REFUTED (new defect class K_uniq_capture, reproduced through parse_isla / evaluate, see design_notes/C08.md):
+     (exists <a> a in start: a = "x") and (forall <a> a in start: a = <a>)
+   The free <a> is registered as a_0; ensure_unique_bound_variables (used-name set initially EMPTY) renames the second
+   binder `a` to a_0 too, capturing it: `forall <a> a_0 in start: a_0 = a_0`; the closure of <a> then finds nothing to
+   close.  On a domain with two <a> nodes "x","z" (which satisfies all three premises about domains) the elaborated
+   formula is TRUE, the documented `forall <a> a_0 in start: ((exists a ...) and (forall a: a = a_0))` is FALSE.  The
+   input is outside uniq_ok (and outside the wave-3 guard). *)
+Theorem C08_uniq_capture_refuted :
+  elab G0 S_cap = Ok sugar_cap /\ elab_doc_nox S_cap = Ok doc_cap /\
+  ev_c rho0 sugar_cap = true /\ ev_c rho0 doc_cap = false /\
+  (exists st f0, walk0 S_cap = Ok (st, f0) /\ uniq_ok [] f0 = false /\ nodupb (names (binders f0)) = false).
+Proof. exact uniq_capture_refuted. Qed.
+Print Assumptions C08_uniq_capture_refuted.
+
+Theorem C08_uniq_capture_domain_ok :
+  (forall d v m k, mexpr_eqb m k = true -> dom_2 d v m = dom_2 d v k) /\
+  (forall d v m asg, In asg (dom_2 d v m) -> forall x, existsb (fun p => var_eqb (fst p) x) asg = vmem x (qbound v m)) /\
+  (forall s d v m, kt_pres (rlook s) -> dom_2 d (rlook s v) (sub_me s m) = map (ren_asg (rlook s)) (dom_2 d v m)).
+Proof. exact (conj dom_2_ext (conj dom_2_keys dom_2_ren)). Qed.
+Print Assumptions C08_uniq_capture_domain_ok.
+
+(* END-TO-END with the RELAXED guards (Logic/SugarCompose2.v, SugarComposeX2.v): "binder names pairwise distinct" before a
+   pass of ensure_unique_bound_variables is replaced by "pairwise distinct OR uniq_ok [] f" (uniq_pre2).
+   sugar_guard_nox2: both passes relaxed (repeated user-chosen names, xor / iff over quantified operands). *)
+Theorem C08_sugar_core_noxpath2_partial :
+  forall (D : Type) aev pev (dom : D -> var -> option mexpr -> list (list (var * D))) idom tval,
+  (forall d v m k, mexpr_eqb m k = true -> dom d v m = dom d v k) ->
+  (forall d v m asg, In asg (dom d v m) -> forall x, existsb (fun p => var_eqb (fst p) x) asg = vmem x (qbound v m)) ->
+  (forall s d v m, kt_pres (rlook s) -> dom d (rlook s v) (sub_me s m) = map (ren_asg (rlook s)) (dom d v m)) ->
+  forall g s c, sugar_guard_nox2 s = true -> elab g s = Ok c ->
+    exists c', elab_doc_nox s = Ok c' /\
+      forall rho,
+        (forall v, In v (sugar_closure_vars s) -> K_pushin_empty D dom tval rho v (InVar start_c) None = false) ->
+        ev D aev pev dom idom tval rho c = ev D aev pev dom idom tval rho c'.
+Proof. exact sugar_core_noxpath2. Qed.
+Print Assumptions C08_sugar_core_noxpath2_partial.
+
+(* sugar_guard_xp1b: one XPath expression rooted at a quantified variable; the SECOND pass is relaxed, i.e. the XPath may
+   expand to >= 2 grammar alternatives over a QUANTIFIED body (AddMexprTransformer copies the body, the copies repeat
+   binder names, the pass renames them).  The first pass keeps the wave-3 condition (the first variable must keep its
+   name: the documented side looks it up by name). *)
+Theorem C08_sugar_core_xpath1b_partial :
+  forall (D : Type) aev pev (dom : D -> var -> option mexpr -> list (list (var * D))) idom tval,
+  (forall d v m k, mexpr_eqb m k = true -> dom d v m = dom d v k) ->
+  (forall d v m asg, In asg (dom d v m) -> forall x, existsb (fun p => var_eqb (fst p) x) asg = vmem x (qbound v m)) ->
+  (forall s d v m, kt_pres (rlook s) -> dom d (rlook s v) (sub_me s m) = map (ren_asg (rlook s)) (dom d v m)) ->
+  forall g s c, sugar_guard_xp1b g s = true -> elab g s = Ok c ->
+    exists c', elab_doc_xp1 g s = Ok c' /\
+      forall rho,
+        (forall v, In v (sugar_closure_vars s) -> K_pushin_empty D dom tval rho v (InVar start_c) None = false) ->
+        ev D aev pev dom idom tval rho c = ev D aev pev dom idom tval rho c'.
+Proof. exact sugar_core_xpath1b. Qed.
+Print Assumptions C08_sugar_core_xpath1b_partial.
+
+Theorem C08_elab_total_noxpath2_partial :
+  forall g s, sugar_guard_nox2 s = true -> (exists c, elab g s = Ok c) \/ elab g s = Raise SyntaxErr.
+Proof. exact elab_total_noxpath2. Qed.
+Print Assumptions C08_elab_total_noxpath2_partial.
+
+(* non-vacuity: (forall <a> a: a = "x") and (forall <a> a: a = "z") and <b> = "y"  (pass 1 renames) and
+   forall <s> x in start: (x.<a> = "x" and exists <b> y in x: y = "y")  over <s> ::= <a> | <a><b>  (pass 2 renames) are
+   OUTSIDE the wave-3 guards, INSIDE the relaxed ones; elab and the documented translation return different ASTs *)
+Theorem C08_sugar_core2_nonvacuous :
+  sugar_guard_nox S_ren = false /\ sugar_guard_nox2 S_ren = true /\
+  (exists c c', elab G0 S_ren = Ok c /\ elab_doc_nox S_ren = Ok c' /\ cf_eqb c c' = false) /\
+  sugar_guard_xp1 G0 S_xp2 = false /\ sugar_guard_xp1b G0 S_xp2 = true /\
+  (exists c c', elab G0 S_xp2 = Ok c /\ elab_doc_xp1 G0 S_xp2 = Ok c' /\ cf_eqb c c' = false).
+Proof. exact sugar_core2_nonvacuous. Qed.
+Print Assumptions C08_sugar_core2_nonvacuous.
